@@ -165,8 +165,11 @@ def edge_candidates(x, is_lat):
     n = round(e)
     q = F(x)
     if e != n and abs(e - n) < TOL:
+        # the double computation may land on the line or on either side of it
         snapped = 90 - F(n, 120) if is_lat else F(n, 120) - 180
-        return [q, snapped]
+        d = TOL * CELL
+        lo, hi = (-60, 90) if is_lat else (-180, 180)
+        return [q] + [c for c in (snapped, snapped - d, snapped + d) if lo <= c <= hi and c != q]
     return [q]
 
 
@@ -541,7 +544,7 @@ def gen_tiles_rect(rng):
                 e[k] = float(np.nextafter(e[k], rng.choice([-1e9, 1e9])))
                 e[k] = min(max(e[k], -60.0 if k % 2 == 0 else -180.0), 90.0 if k % 2 == 0 else 180.0)
         la0, lo0, la1, lo1 = e
-    if not (la0 < la1 and lo0 < lo1):
+    if not (la1 - la0 > 1e-6 and lo1 - lo0 > 1e-6):      # below double resolution: see corpus witness
         return gen_tiles_rect(rng)
     return style, (la0, lo0, la1, lo1)
 
